@@ -100,7 +100,7 @@ class Session:
         self.fault = None  # (kind, party, index in emitted[party])
         self.fault_delivered_at = None
         self.racy = False
-        self.in_flight = 0
+        self.in_flight = {}
         self.silent = set()
         self.errors: list = []
         self.steps = 0
@@ -257,13 +257,15 @@ class ProtoSimulation:
     def peer_poll(self, sess: Session):
         if sess is not self.session or not sess.active or sess.ended:
             return
-        if sess.in_flight or sess.fault is not None and sess.fault[0] in ("truncated", "silence", "garbage", "wrong_type", "constraint_violation"):
+        if sess.fault is not None and sess.fault[0] in ("truncated", "silence", "garbage", "wrong_type", "constraint_violation"):
             return
         viable, st = self.auto.run(sess.sim_history)
         if not viable:
             return
         nxt = self.auto.next_set(st)
-        ext_opts = sorted(k for k in nxt if k[0] in self.p.externals and k[0] not in sess.silent)
+        # a party cannot start a message while its previous one is still on the wire; *other*
+        # parties can (they do not see each other), which interleaves their fragments in the buffer
+        ext_opts = sorted(k for k in nxt if k[0] in self.p.externals and k[0] not in sess.silent and not sess.in_flight.get(k[0]))
         fz_opts = [k for k in nxt if k[0] in self.p.fuzzers]
         if not ext_opts:
             return
@@ -354,7 +356,9 @@ class ProtoSimulation:
         self.run.op("t=%.3f %s -> %s : <%s> %r [%s] in %d fragment(s)%s" % (self.clock.elapsed(), sender, recipient, mtype, text, behaviour, len(pieces), (" after %.1fs" % pre_delay) if pre_delay else ""))
         self.run.event("emit", sender, recipient, mtype, text, behaviour, len(pieces))
         t = pre_delay
-        sess.in_flight += len(pieces)
+        sess.in_flight[sender] = sess.in_flight.get(sender, 0) + len(pieces)
+        if valid and ok and len(self.p.externals) > 1 and self.ch.coin(0.6, "sched", "concurrent-peer"):
+            self.schedule_peer_poll(0.0)  # another party may speak while this message is in flight
         for i, piece in enumerate(pieces):
             if i > 0:
                 d = self.draw_delay("fragment")
@@ -372,7 +376,7 @@ class ProtoSimulation:
         return []
 
     def deliver(self, sess: Session, sender, recipient, piece, last, rec):
-        sess.in_flight -= 1
+        sess.in_flight[sender] = sess.in_flight.get(sender, 1) - 1
         if sess is not self.session or not sess.active:
             return
         party = self.io.parties.get(recipient)
